@@ -32,8 +32,8 @@ def script_of(coll, lines):
         elif l.startswith("sub "):
             w = l.split()
             src = [t for t in w if t.startswith("src=")]
-            rest = [t for t in w[2:] if not t.startswith("src=")]
-            out.append(("sub2 %s " % src[0][4:] if src else "sub ") + " ".join(rest))
+            rest = [t for t in w[2:] if not t.startswith("src=") and t != "race"]
+            out.append((("sub2r %s " if "race" in w else "sub2 %s ") % src[0][4:] if src else "sub ") + " ".join(rest))
         elif l == "op done":
             out.append("done")
         elif l.startswith(("op ", "drop", "cut", "read ", "settle", "borrow ")):
